@@ -83,17 +83,17 @@ var avoidEnv = func() map[string]bool {
 func open(id string) bool { return runlog.IsOpen(id) || avoidEnv[id] }
 
 type typeFacts struct {
-	namedString                                 bool // D45: named string type (Unpack hangs)
-	mapOfStructOrArr                            bool // D31: map[string]Struct / map[string][N]T / map[string]map[..] (merging into pre-filled entries panics: map elements are not addressable)
-	ptrCollElems                                bool // D42: collection elements that are pointers to slices, arrays or maps (element set without re-pointering)
-	tagOnPtr                                    bool // D23: validate tag on a pointer-typed field (incl. *regexp.Regexp) that is non-nil in the pre-filled value
-	ptrToColl                                   bool // D30: pointer to slice / array / map (non-nil in the pre-filled value)
-	tagOnPtrToMap                               bool // D32: validate tag on a *map field
-	mapWithValidator                            bool // D35: map whose element type carries validators
-	tagOnArray                                  bool // D41: required / nonzero on a field that is, or holds, a fixed-size array
-	tagOnNamedString                            bool // D47: required / nonzero ignored on fields of a named string type
-	ptrPtrValidator                             bool // D49: Validate() of an unmentioned pre-filled value behind two or more pointer levels is not called
-	validators                                  int  // tags and Validate methods in the type
+	namedString                                 bool            // D45: named string type (Unpack hangs)
+	mapOfStructOrArr                            bool            // D31: map[string]Struct / map[string][N]T / map[string]map[..] (merging into pre-filled entries panics: map elements are not addressable)
+	ptrCollElems                                bool            // D42: collection elements that are pointers to slices, arrays or maps (element set without re-pointering)
+	tagOnPtr                                    bool            // D23: validate tag on a pointer-typed field (incl. *regexp.Regexp) that is non-nil in the pre-filled value
+	ptrToColl                                   bool            // D30: pointer to slice / array / map (non-nil in the pre-filled value)
+	tagOnPtrToMap                               bool            // D32: validate tag on a *map field
+	mapWithValidator                            bool            // D35: map whose element type carries validators
+	tagOnArray                                  bool            // D41: required / nonzero on a field that is, or holds, a fixed-size array
+	tagOnNamedString                            bool            // D47: required / nonzero ignored on fields of a named string type
+	ptrPtrValidator                             bool            // D49: Validate() of an unmentioned pre-filled value behind two or more pointer levels is not called
+	validators                                  int             // tags and Validate methods in the type
 	inlineKinds, inlineTags                     map[string]bool // kinds of inline fields; kinds of inline fields that carry a validate tag
 	cats                                        map[string]bool
 	ptr, slice, array, mapk, inline, dur, named bool
@@ -658,6 +658,6 @@ var subTwin = runlog.Register(&runlog.Sub[Case]{
 	Run:  runCase,
 })
 
-func TestTwinDifferential(t *testing.T) { subTwin.Check(t, 250000, 3000000) }
+func TestTwinDifferential(t *testing.T) { subTwin.Check(t, 200000, 3000000) }
 
 func TestReplay(t *testing.T) { runlog.ReplayMain(t) }
